@@ -191,15 +191,37 @@ Fixpoint selected_ancestors (e : env) (st : vstate) (sg : stage) (thr : N) (fuel
   | S fuel' => sa_loop e st sg thr (selected_ancestors e st sg thr fuel' votes) curr votes selected
   end.
 
-(* getPossibleSelectedBlocks *)
-Definition possible_selected_blocks (e : env) (st : vstate) (sg : stage) (thr : N) : list (block * N) :=
+(* the pairwise pass of the repaired getPossibleSelectedBlocks (fix C21-ghost-misses-unvoted-fork-
+   point): the lowest common ancestor of every two voted blocks is a candidate *)
+Fixpoint pair_pass_inner (e : env) (st : vstate) (sg : stage) (thr : N) (a : gvote) (vs : list gvote)
+    (m : list (block * N)) : list (block * N) :=
+  match vs with
+  | [] => m
+  | b :: r =>
+    let pred := lca (e_tree e) (gv_block a) (gv_block b) in
+    let m' := if existsb (fun p => (fst p =? pred)%nat) m then m
+              else if (thr <? total_votes e st sg pred)%N then bset pred (number e pred) m else m in
+    pair_pass_inner e st sg thr a r m'
+  end.
+Fixpoint pair_pass (e : env) (st : vstate) (sg : stage) (thr : N) (vs : list gvote)
+    (m : list (block * N)) : list (block * N) :=
+  match vs with
+  | [] => m
+  | a :: r => pair_pass e st sg thr r (pair_pass_inner e st sg thr a r m)
+  end.
+
+(* getPossibleSelectedBlocks.  [pairs] = with the pairwise pass (the repaired code) *)
+Definition possible_selected_blocks_gen (pairs : bool) (e : env) (st : vstate) (sg : stage) (thr : N)
+    : list (block * N) :=
   let votes := direct_votes st sg in
   let direct := fold_left (fun m v => if (thr <? total_votes e st sg (gv_block v))%N
                                       then bset (gv_block v) (gv_num v) m else m) votes [] in
+  let direct := if pairs then pair_pass e st sg thr votes direct else direct in
   match direct with
   | _ :: _ => direct
   | [] => fold_left (fun m v => selected_ancestors e st sg thr (S (gv_block v)) votes (gv_block v) m) votes []
   end.
+Definition possible_selected_blocks := possible_selected_blocks_gen true.
 
 (* the "find the one with the highest number" loops *)
 Definition highest (start : gvote) (m : list (block * N)) : gvote :=
@@ -232,6 +254,15 @@ Definition prevoted_block (e : env) (st : vstate) : outcome gvote :=
   | [] => grandpa_ghost e st
   | [(h, n)] => Ok (mkGV h n)
   | m => Ok (highest (mkGV (s_head st) (number e (s_head st))) m)
+  end.
+
+(* getPreVotedBlock of the pinned code (no pairwise pass), when some block qualifies: kept for the
+   refutation witness *)
+Definition prevoted_block_prefix (e : env) (st : vstate) : option gvote :=
+  match possible_selected_blocks_gen false e st Prevote (threshold e) with
+  | [] => None
+  | [(h, n)] => Some (mkGV h n)
+  | m => Some (highest (mkGV (s_head st) (number e (s_head st))) m)
   end.
 
 (* getBestFinalCandidate *)
